@@ -177,6 +177,8 @@ def run(chk):
 
     from lib import writeoffset
     writeoffset.run(chk)
+    from lib import movn32
+    movn32.run(chk)
     return chk.finish(
         level="other",
         explanation=("Structural clauses over CodeWriterUtils in /repo's current source: every success exit of the offset encoders is "
